@@ -4,6 +4,7 @@ import sys,os,shutil,json
 name,prop,src,breaks,needs,det=sys.argv[1:7]
 d=f'/verif/seeded/{name}'; os.makedirs(d,exist_ok=True)
 shutil.copy(f'{src}/patch.diff',f'{d}/patch.diff')
-shutil.copy(f'{src}/demo_test.rs',f'{d}/demo_test.rs')
+for f in ('demo_test.rs','demo.diff'):
+    if os.path.exists(f'{src}/{f}'): shutil.copy(f'{src}/{f}',f'{d}/{f}')
 if os.path.exists(f'{src}/notes.md'): shutil.copy(f'{src}/notes.md',f'{d}/agent-notes.md')
 json.dump({"property":prop,"breaks":breaks,"needs":needs,"origin":"independent sub-agent","confirmed":["patch applies to /repo HEAD, crate compiles (the check's own extraction + native build ran on the patched tree)","agent's demo test fails with the patch and passes without it; existing crate tests pass (agent notes)"],"detected_by":det},open(f'{d}/meta.json','w'),indent=1)
